@@ -279,7 +279,10 @@ func compactNumber(dst, src []byte, cursor int64) ([]byte, int64, error) {
 	}
 	num := src[start:cursor]
 	if _, err := strconv.ParseFloat(*(*string)(unsafe.Pointer(&num)), 64); err != nil {
-		return nil, 0, err
+		// a number too large for float64 is still a number of the JSON grammar: it is copied as it is
+		if ne, ok := err.(*strconv.NumError); !ok || ne.Err != strconv.ErrRange {
+			return nil, 0, err
+		}
 	}
 	if !isValidNumber(*(*string)(unsafe.Pointer(&num))) {
 		return nil, 0, errors.ErrSyntax("invalid number literal", cursor)
